@@ -4,7 +4,7 @@ CONSTANTS
   MaxW = 2
   MaxH = 1
   TypeSet = {"String", "f64", "i64", "bool", "Data", "OptString", "Optf64", "Opti64", "Optbool", "I64OrNone", "F64OrNone"}
-  CodeSet = {"E", "S0", "Sx", "S12", "Spad", "I7", "I0", "F0", "Ibig", "F1.5", "F2", "S1.5", "B1", "B0", "STRUE", "Sfalse", "Strue", "STrue", "SFALSE", "SFalse", "XDiv0", "XNA"}
+  CodeSet = {"E", "S0", "Sx", "S12", "Spad", "I7", "I0", "F0", "F0.5", "Ibig", "F1.5", "F2", "S1.5", "B1", "B0", "STRUE", "Sfalse", "Strue", "STrue", "SFALSE", "SFalse", "XDiv0", "XNA"}
   CfgKinds = {"none", "all"}
   ShapeSet = {"tuple"}
   Permute = FALSE
